@@ -6,7 +6,7 @@ import sys, os, json, subprocess, shutil, glob
 from concurrent.futures import ThreadPoolExecutor
 V = '/verif'
 props = ['C%02d' % i for i in range(1, 21)]
-ids = sys.argv[1:] or sorted(os.path.basename(d) for d in glob.glob(V + '/seeded/*') if os.path.isdir(d))
+ids = sys.argv[1:] or sorted(os.path.basename(d) for d in glob.glob(V + '/seeded/*') if os.path.isdir(d) and not os.path.basename(d).startswith('_'))
 
 
 def one(sid):
